@@ -13,17 +13,17 @@ import argparse, random, sys, itertools
 SCHEMES = ['http','https','ws','wss','ftp','file','non-spec','x','a+b-c.d','HTTP','hTtPs','FILE','htt','httpss','fil','blob','mailto','','1ab','h ttp','wS','FtP']
 AFTER = ['//','//','//','/','','\\\\','\\/','///','////','/\\']
 USER = ['','','','u@','u:p@','user:pw@',':pw@',':@','@','a@b@','u:p:q@','us/er@','u?@','u#@','\u00fcser:p\u00e4ss@','%41:%42@','u%@','[u]@',"u;=@",'u\\@']
-LABELS = ['h','host','example','EXAMPLE','ex-ample','a--b','ab--c','-a','a-','xn--exmple-cua','XN--EXMPLE-CUA','xn--','xn--a','\u00e4','b\u00fccher','\u05d0','\u05d0a','1\u05d0','a\u200d','\u0628\u200d','\u0645\u0660','\uff41','\u00df','\u03c2','%41','%c3%a4','%e4','a%','%zz','\u00ad','a\u0338','<\u0338','=\u0338','>\u0338','<%CC%B8','a_b','a~b','a!b',"a'b",'a*b','0','1','08','0x','0x1f','0XAB','4294967295','4294967296','256','255','999999999999','00000000001','0x100000000','1e3','a\u0301','\U0001f600','xn--80ak6aa92e','xn--nxasmq6b','faß','\u200c','a\u200cb','\u0644\u200c\u0627','%F0%9F%92%A9','%80','\ufffd']
-TLDS = ['com','org','de','','\u3002jp','\uff0ecom','.','0','1','0x7f','09','0x','1.','COM']
-IPV4 = ['1.2.3.4','127.1','0x7f.1','0177.0.0.1','1.2.3','1.2.3.4.','1.2.3.4.5','1..2','256.1.1.1','1.256.1.1','1.1.1.256','1.1.256','1.1.65535','1.1.65536','1.16777215','1.16777216','4294967295','4294967296','0xffffffff','0x100000000','08','09.1','0x','0x.1','1.0x','00000000000000000001','077777777777','037777777777','040000000000','1.2.3.08','1.2.3.4x','0x1g','.1','1.','a.1','0xx','0x1x','1x','x','0X1.0x2.0X3.4','1.2.0x','0.0.0.0','255.255.255.255','0x7F000001','017700000001','1.2.3.4..','..','1.2.3.0x100','1.2.65536','0.0.0.256']
-IPV6 = ['[::]','[::1]','[1::]','[1:2:3:4:5:6:7:8]','[1:2:3:4:5:6:7::]','[::2:3:4:5:6:7:8]','[1::8]','[1:0:0:2:0:0:0:3]','[0:0:1:0:0:1:0:0]','[1:0:0:0:1:0:0:1]','[::1.2.3.4]','[::ffff:1.2.3.4]','[1:2:3:4:5:6:1.2.3.4]','[1:2:3:4:5:6:7:1.2.3.4]','[::1.2.3]','[::1.2.3.4.5]','[::01.2.3.4]','[::256.1.1.1]','[::1.2.3.4','[1:2:3:4:5:6:7:8:9]','[1::2::3]','[:1]','[1:]','[12345::]','[g::]','[::1]x','[FFFF:AbCd::0001]','[0:0:0:0:0:0:0:0]','[1:2:3:4:5:6:7]','[::.1.2.3]','[1:2:3:4:5:6::1.2.3.4]','[::1.2.3.4:5]','[::0.0.0.0]','[::255.255.255.255]','[0:1:0:1:0:1:0:1]','[1:0:0:1:0:0:0:0]','[]','[:]','[:::]','[1:2:3:4:5:6:7:8::]','[::1:2:3:4:5:6:7:8]','[1:2:3:4::5:6:7:8]','[1::2:3:4:5:6:7]','[0::0]','[::00001]','[::1.2.3.4.]','[::1.2..3]','[1:2:3:4:5:1.2.3.4]','[::10.0.0.1]','[::1.02.3.4]','[::1.2.3.300]']
+LABELS = ['a'*63,'a'*64,'a'*70,'xn--'+'a'*60,'h','host','example','EXAMPLE','ex-ample','a--b','ab--c','-a','a-','xn--exmple-cua','XN--EXMPLE-CUA','xn--','xn--a','\u00e4','b\u00fccher','\u05d0','\u05d0a','1\u05d0','a\u200d','\u0628\u200d','\u0645\u0660','\uff41','\u00df','\u03c2','%41','%c3%a4','%e4','a%','%zz','\u00ad','a\u0338','<\u0338','=\u0338','>\u0338','<%CC%B8','a_b','a~b','a!b',"a'b",'a*b','0','1','08','0x','0x1f','0XAB','4294967295','4294967296','256','255','999999999999','00000000001','0x100000000','1e3','a\u0301','\U0001f600','xn--80ak6aa92e','xn--nxasmq6b','faß','\u200c','a\u200cb','\u0644\u200c\u0627','%F0%9F%92%A9','%80','\ufffd']
+TLDS = ['xn--2da','\u0105','%2Ecom','com','org','de','','\u3002jp','\uff0ecom','.','0','1','0x7f','09','0x','1.','COM']
+IPV4 = ['\u0131.2.3.4','1.2.3.\u0134','0x\u0141','0\u0178f.1','1\u012e2.3.4','1.2.3.4','127.1','0x7f.1','0177.0.0.1','1.2.3','1.2.3.4.','1.2.3.4.5','1..2','256.1.1.1','1.256.1.1','1.1.1.256','1.1.256','1.1.65535','1.1.65536','1.16777215','1.16777216','4294967295','4294967296','0xffffffff','0x100000000','08','09.1','0x','0x.1','1.0x','00000000000000000001','077777777777','037777777777','040000000000','1.2.3.08','1.2.3.4x','0x1g','.1','1.','a.1','0xx','0x1x','1x','x','0X1.0x2.0X3.4','1.2.0x','0.0.0.0','255.255.255.255','0x7F000001','017700000001','1.2.3.4..','..','1.2.3.0x100','1.2.65536','0.0.0.256']
+IPV6 = ['[\u0131::1]','[1::\u0162]','[\uff41::]','[::\U00010041]','[1:\u0132:3::]','[::1.\u0132.3.4]','[::]','[::1]','[1::]','[1:2:3:4:5:6:7:8]','[1:2:3:4:5:6:7::]','[::2:3:4:5:6:7:8]','[1::8]','[1:0:0:2:0:0:0:3]','[0:0:1:0:0:1:0:0]','[1:0:0:0:1:0:0:1]','[::1.2.3.4]','[::ffff:1.2.3.4]','[1:2:3:4:5:6:1.2.3.4]','[1:2:3:4:5:6:7:1.2.3.4]','[::1.2.3]','[::1.2.3.4.5]','[::01.2.3.4]','[::256.1.1.1]','[::1.2.3.4','[1:2:3:4:5:6:7:8:9]','[1::2::3]','[:1]','[1:]','[12345::]','[g::]','[::1]x','[FFFF:AbCd::0001]','[0:0:0:0:0:0:0:0]','[1:2:3:4:5:6:7]','[::.1.2.3]','[1:2:3:4:5:6::1.2.3.4]','[::1.2.3.4:5]','[::0.0.0.0]','[::255.255.255.255]','[0:1:0:1:0:1:0:1]','[1:0:0:1:0:0:0:0]','[]','[:]','[:::]','[1:2:3:4:5:6:7:8::]','[::1:2:3:4:5:6:7:8]','[1:2:3:4::5:6:7:8]','[1::2:3:4:5:6:7]','[0::0]','[::00001]','[::1.2.3.4.]','[::1.2..3]','[1:2:3:4:5:1.2.3.4]','[::10.0.0.1]','[::1.02.3.4]','[::1.2.3.300]']
 BADHOST = ['a b','a<b','a>b','a^b','a|b','a\\b','a[b','a]b','a@b','a:b','a%00b','a\x7fb','a\x01b','a%7fb','a%20b','a#b','a?b','a/b','[a',']',' ','%','a\tb','a%25b','a%2Fb','a%3Ab']
 PORTS = ['','','','',':',':80',':443',':21',':0',':8080',':65535',':65536',':00080',':000000080',':0000065535',':99999',':100000',':8x',':x',':-1',':80 ',':\uff10',':00000',':065536',':1\t2']
 SEGS = ['a','b','c','.','..','%2e','%2E','.%2e','%2e.','%2E%2e','%2e%2E','.%2E','...','','x y','C:','C|','c|','d:','\u00e4','%','%g1','?','a;b',"a'b",'a`b','{x}','a\\b','a%5Cb','~','\x7f','a\x01','%00','\U0001f600','^','|','a|b','%7C','C%7C','%2e%2e%2e','.%2e.','\u0080','\u07ff','\u0800','\ud7ff','\ue000','\uffff','\U00010000','\U0010ffff']
 QUERIES = ['','','?','?q','?a=b&c=d',"?it's",'?a b','?"x"','?<>','?\u00e4=\u00f6','?%zz','?a#b','??','?\x7f','?`{}','?%27','?a=1&a=2&b','?+&=%26','?\U0001f600']
 FRAGS = ['','','#','#f','#a b','#`x`','#"<>"','#\u00e4','#%zz','##','#a#b','#\x00x','#{}','#\U0001f600','#\x7f']
-RELS = ['','.','..','../..','../../..','./','../','/x','//h','//h:8/p','///p','?q','#f','x:y','C|/','C:/x','c|','\\\\x','\\x','/\\h','http:','http:x','http:/x','http://x','https:x','file:','file:x','file:/x','file:..','non-spec:x','a/../b','a/./b/','%2e%2e/x','.%2e','x?y#z','  y  ','/.//p','//','/..//p','..//p','C|','/C|/x','//C|/x','///C|','?','#','x/','%2E','..\\x','ws:x','ftp:/x','\\\\h\\p','/C:','C|\\x','file:C|/x','file:/C|','file://C|/x','file:///C|','//localhost/x','file://localhost/x','file://LOCALHOST','\t/ x\n','#\n','?\t']
-STARTS = ['http://u:p@h:81/a/b?q#f','https://h/','https://h:443/','http://h:80/','file:///C:/a/b','file://host/p','file:///','ws://h/p?x','ftp://h:21/x','non-spec://u@h:1/a/b?q#f','non-spec://h','non-spec:/p/q','non-spec:opaque path ?q#f','non-spec:op  ','non-spec:///p','non-spec:/.//p','non-spec://h//p','blob:http://h/x','mailto:a@b','http://[::1]:8/','http://1.2.3.4/','x:','http://h/?a=1&b=2','file:///C:/','file://h/C:/x','non-spec:/','non-spec://','wss://h:444/','non-spec:x  #f','non-spec:x  ?q','http://h/a/b/c/../d?x=1&y=2#frag','blob:https://h:8/p','blob:file:///x','blob:x']
+RELS = ['file://C:/x','file://c|/d','//C:/x','\\\\c|\\d','file://C:','file://C:?q#f','//c|','','.','..','../..','../../..','./','../','/x','//h','//h:8/p','///p','?q','#f','x:y','C|/','C:/x','c|','\\\\x','\\x','/\\h','http:','http:x','http:/x','http://x','https:x','file:','file:x','file:/x','file:..','non-spec:x','a/../b','a/./b/','%2e%2e/x','.%2e','x?y#z','  y  ','/.//p','//','/..//p','..//p','C|','/C|/x','//C|/x','///C|','?','#','x/','%2E','..\\x','ws:x','ftp:/x','\\\\h\\p','/C:','C|\\x','file:C|/x','file:/C|','file://C|/x','file:///C|','//localhost/x','file://localhost/x','file://LOCALHOST','\t/ x\n','#\n','?\t']
+STARTS = ['file://C:/x','file://c|/d','a:/.//p','web+demo:/a/..//b/c','http://u:p@h:81/a/b?q#f','https://h/','https://h:443/','http://h:80/','file:///C:/a/b','file://host/p','file:///','ws://h/p?x','ftp://h:21/x','non-spec://u@h:1/a/b?q#f','non-spec://h','non-spec:/p/q','non-spec:opaque path ?q#f','non-spec:op  ','non-spec:///p','non-spec:/.//p','non-spec://h//p','blob:http://h/x','mailto:a@b','http://[::1]:8/','http://1.2.3.4/','x:','http://h/?a=1&b=2','file:///C:/','file://h/C:/x','non-spec:/','non-spec://','wss://h:444/','non-spec:x  #f','non-spec:x  ?q','http://h/a/b/c/../d?x=1&y=2#frag','blob:https://h:8/p','blob:file:///x','blob:x']
 NAMES = ['a','b','z','aa','A','\u00e4','\ue000','\uffff','\U00010000','\U0001f600','\U0001f601','\U0001f3ff','\U0001f400','\ufb00','\ud7ff','','a b','a+b','a&b','a=b','%41','~','*','ab','abc','abd','\u007f','\u0080','\u07ff','\u0800','\U0010ffff','\ufffd']
 VALUES = ['','1','x y','a&b=c','%41','+','\u00e4','\U0001f600','v','=','?','#']
 SETTERS = ['href','protocol','username','password','host','hostname','port','pathname','search','hash']
@@ -44,6 +44,12 @@ BOUNDARY = ['\u007f','\u0080','\u07ff','\u0800','\ud7ff','\ue000','\uffff','\U00
 BAD8 = [[0x80],[0xBF],[0xC0,0x80],[0xC1,0xBF],[0xC2],[0xE0,0x80,0x80],[0xE0,0x9F,0xBF],[0xE0,0xA0],[0xED,0xA0,0x80],[0xED,0xBF,0xBF],[0xEF,0xBF],[0xF0,0x80,0x80,0x80],[0xF0,0x8F,0xBF,0xBF],[0xF0,0x90,0x80],[0xF4,0x90,0x80,0x80],[0xF5,0x80,0x80,0x80],[0xFF],[0xFE],[0xF8,0x88,0x80,0x80,0x80],[0xE2,0x82],[0xE2],[0xF0,0x9F,0x92],[0xF0,0x9F],[0xF0],[0xC3,0xC3,0xA9],[0xE2,0x28,0xA1],[0xF1,0x80,0x80,0x41],[0xE2,0x0A,0x82,0xAC],[0xC3,0x09,0xA9],[0xF0,0x0D,0x9F,0x92,0xA9]]
 BAD16 = [[0xD800],[0xDBFF],[0xDC00],[0xDFFF],[0xD800,0x41],[0xDC00,0xD800],[0xD800,0xD800,0xDC00],[0xD83D,0x0A,0xDCA9],[0xD83D,0x09,0xDE00],[0xDFFF,0xDFFF]]
 BAD32 = [[0xD800],[0xDFFF],[0x110000],[0xFFFFFFFF],[0x80000000],[0x10FFFF+1],[0xDC00,0xD800]]
+
+def alias(ch, k=None):
+    """a code point above U+00FF whose LOW BYTE equals the ASCII character (is_8bit guard class of slips)"""
+    o = ord(ch)
+    return chr(o + (k if k is not None else 0x100))
+ALIAS_OFFSETS = [0x100, 0x200, 0xFF00, 0x4E00, 0x10000, 0x1F400]
 
 def units(text, enc):
     """code units of a Python string (may contain lone surrogates) in encoding enc"""
@@ -103,7 +109,7 @@ class Gen:
         return s
     def mutate(self, s):
         if not s: return s
-        k = self.r.randrange(9)
+        k = self.r.randrange(10)
         i = self.r.randrange(len(s) + 1)
         if k == 0: return s[:i] + self.pick(['\t', '\n', '\r']) + s[i:]
         if k == 1: return s[:i] + self.pick(['\x00', '\x01', '\x1f', ' ']) + s[i:]
@@ -113,6 +119,7 @@ class Gen:
         if k == 5 and i < len(s) and ord(s[i]) < 0x80: return s[:i] + '%%%02X' % ord(s[i]) + s[i+1:]
         if k == 6 and i < len(s): return s[:i] + s[i] + s[i:]
         if k == 7: return s[:i] + self.pick(BOUNDARY) + s[i:]
+        if k == 8 and i < len(s) and 0x20 < ord(s[i]) < 0x7F: return s[:i] + alias(s[i], self.pick(ALIAS_OFFSETS)) + s[i+1:]
         return s
     def url_text(self):
         scheme = self.pick(SCHEMES)
@@ -199,6 +206,24 @@ class Gen:
         """C05/C06: two-object histories with copy / move / swap / safe_assign / clear, params edits"""
         self.emit('case')
         self.stat('case:obj')
+        if self.r.randrange(12) == 0:
+            # reuse of an EMPTY object whose params object still holds a list (edits on an invalid URL are inert for
+            # the URL but stay in the list; safe_assign into an object without params leaves the source's list)
+            self.stat('obj:reuse-empty')
+            noq = self.pick(['http://h/p', 'http://h.example/p#frag', 'non-spec:/x', 'file:///C:/x', 'https://u@h:8/'])
+            if self.r.randrange(2):
+                if self.r.randrange(2): self.emit('parse 0 %s -' % self.arg(self.pick(STARTS))); self.emit('sp 0 get'); self.emit('obj clear 0 0')
+                else: self.emit('sp 0 get')
+                self.emit(self.sp_op(0)); self.emit('sp 0 append %s %s' % (self.arg('k'), self.arg('v')))
+                self.emit('parse 0 %s -' % self.arg(noq))
+            else:
+                self.emit('parse 1 %s -' % self.arg('http://b.example/?x=1&y=2')); self.emit('sp 1 get')
+                self.emit('parse 0 %s -' % self.arg('http://a.example/'))
+                self.emit('obj safea 0 1')
+                self.emit('parse 1 %s -' % self.arg(noq))
+                self.emit('dump 1'); self.emit('sp 1 append %s %s' % (self.arg('z'), self.arg('3')))
+            self.emit('dump 0'); self.emit('sp 0 %s' % self.pick(['sort', 'append %s %s' % (self.arg('c'), self.arg('d'))])); self.emit('dump 0'); self.emit('dump 1')
+            return
         self.emit('parse 0 %s -' % self.arg(self.pick(STARTS)))
         if self.r.randrange(2): self.emit('parse 1 %s -' % self.arg(self.pick(STARTS) if self.r.randrange(4) else self.url_text()))
         if self.r.randrange(2): self.emit('sp %d get' % self.r.randrange(2))
@@ -304,6 +329,10 @@ class Gen:
             for _ in range(self.r.randrange(1, 5)):
                 x = self.r.randrange(10)
                 if x < 3: us += units(self.pick(['a', '/', '?', '#', '%41', 'x y', ':', '@', '.', '=', '&']), e)
+                elif x == 3 and e != 8:
+                    # a wide unit whose LOW BYTE is an ASCII-significant character, in a context where that character matters
+                    t = self.pick(['%41', '%4', '%C3%A9', '[1::2]', '1.2.3.4', '0x7f', ':80', 'http:', '//', '?a=b&c', '#', '@', 'C:', '..', '%2e'])
+                    i = self.r.randrange(len(t)); us += units(t[:i] + alias(t[i], self.pick(ALIAS_OFFSETS if e == 32 else ALIAS_OFFSETS[:4])) + t[i+1:], e)
                 elif x < 6: us += units(self.pick(BOUNDARY), e)
                 else: us += self.pick(bad)
             return us
@@ -318,7 +347,11 @@ class Gen:
             self.emit('set 0 %s %d %s' % (st, e, U(noisy())))
         elif x < 55: self.emit('penc %s %d %s' % (self.pick(['fragment', 'query', 'squery', 'path', 'rawpath', 'posixpath', 'userinfo', 'component']), e, U(noisy())))
         elif x < 65: self.emit('pdec %d %s' % (e, U(noisy())))
-        elif x < 72: self.emit('host %d %s' % (e, U(units('a', e) + noisy())))
+        elif x < 68: self.emit('host %d %s' % (e, U(units('a', e) + noisy())))
+        elif x < 72:
+            h = self.pick(IPV6 + IPV4)
+            if self.r.randrange(2): self.emit('host %d %s' % (e, U(units(h, e))))
+            else: self.emit('parse 0 %d %s -' % (e, U(units('http://' + h + '/', e))))
         elif x < 80: self.emit('utf %d %s' % (e, U(noisy())))
         elif x < 88 and e != 8: self.emit('psp 0 ctor %d %s' % (e, U(units('a=', e) + noisy() + units('&', e) + noisy())))
         elif x < 94 and e != 8: self.emit('psp 0 append %d %s %d %s' % (e, U(noisy()), e, U(noisy())))
@@ -351,8 +384,10 @@ class Gen:
             s = '.'.join(num() for _ in range(self.r.randrange(1, 7))) + self.pick(['', '', '.', '..'])
         else:
             s = ''.join(self.pick('0178 9afxX.g-'.replace(' ', '')) for _ in range(self.r.randrange(0, 14)))
-        self.emit('ipv4 %s' % U(units(s, 8)))
-        self.emit('ends %s' % U(units(s, 8)))
+        if s and self.r.randrange(8) == 0:
+            i = self.r.randrange(len(s)); s = s[:i] + alias(s[i], self.pick(ALIAS_OFFSETS)) + s[i+1:]
+        self.emit('ipv4 %s' % U(units(s, 32)))
+        self.emit('ends %s' % U(units(s, 32)))
     def s_ipv4_exh(self, k, maxlen):
         alpha = '0179afxX.g-8'
         n = len(alpha); tot = 0
@@ -384,7 +419,9 @@ class Gen:
             if self.r.randrange(4) == 0: s += self.pick([':1.2.3.4', '.1', ':1.2.3', ':256.0.0.1', ':01.2.3.4', ':1.2.3.4.5', ':1.2.3.4:'])
         else:
             s = ''.join(self.pick('01f:.g') for _ in range(self.r.randrange(0, 12)))
-        self.emit('ipv6 %s' % U(units(s, 8)))
+        if s and self.r.randrange(8) == 0:
+            i = self.r.randrange(len(s)); s = s[:i] + alias(s[i], self.pick(ALIAS_OFFSETS)) + s[i+1:]
+        self.emit('ipv6 %s' % U(units(s, 32)))
     def s_ipv6_exh(self, k, maxlen):
         alpha = '01f:.g'
         n = len(alpha); tot = 0
@@ -413,7 +450,7 @@ class Gen:
             t = ''.join(self.pick(['a', ' ', '%', '/', '?', '#', "'", '"', '<', '`', '{', '|', '\\', '^', ':', '@', '=', '&', '+', '$', ',', ';', '[', ']', '~', '!', '(', '*', '\x00', '\x1f', '\x7f'] + BOUNDARY) for _ in range(self.r.randrange(0, 8)))
             self.emit('penc %s %s' % (self.pick(['fragment', 'query', 'squery', 'path', 'rawpath', 'posixpath', 'userinfo', 'component']), self.arg(t, e)))
         else:
-            alpha = ['%', '4', '1', 'C', '3', 'A', '9', 'E', '2', '8', 'z', 'g', 'F', '0', 'f', 'c', '\u00e9', 'a', '\U0001f4a9', '%C3%A9', '%E2%82%AC', '%F0%9F%92%A9', '%FF', '%80', '%C3', '%E2%82', '%', '%4', '%zz', '%C3%zz', '%C3%', '%41', '%00', '%7F', '%c3%a9']
+            alpha = ['%', '4', '1', 'C', '3', 'A', '9', 'E', '2', '8', 'z', 'g', 'F', '0', 'f', 'c', '\u0134', '\u0131', '\u0141', '\u0161', '\uff41', '\U0001f431', '%\u0134\u0131', '%4\u0131', '\u00e9', 'a', '\U0001f4a9', '%C3%A9', '%E2%82%AC', '%F0%9F%92%A9', '%FF', '%80', '%C3', '%E2%82', '%', '%4', '%zz', '%C3%zz', '%C3%', '%41', '%00', '%7F', '%c3%a9']
             t = ''.join(self.pick(alpha) for _ in range(self.r.randrange(0, 8)))
             self.emit('pdec %s' % self.arg(t, e))
     def s_pct_exh(self, k):
